@@ -316,11 +316,24 @@ func c18RunLib(base string, sc c18Scenario, v c18Vec, prog string, realDir strin
 				lib.note += "library Json() panics: " + p1 + "; "
 			} else {
 				lib.compact = fix(j)
+				// "the library's result" is the MATCH LIST, not whatever the same build renders: the rendered document must
+				// carry every field of every match (filename, numbers, value, variables, and for replace commands the
+				// replacement — also when it is the empty string).  If it does not, no output of the tool can equal it.
+				if d, err := c17Decode(j); err != nil {
+					lib.compact = "\x00the library's JSON does not parse: " + err.Error()
+				} else if msg := c17CheckDoc(d, ms); msg != "" {
+					lib.compact = "\x00the library's JSON does not carry the match data: " + msg
+				}
 			}
 			if p2 != "" {
 				lib.note += "library FormattedJson() panics: " + p2 + "; "
 			} else {
 				lib.formatted = fix(f)
+				if d, err := c17Decode(f); err != nil {
+					lib.formatted = "\x00the library's formatted JSON does not parse: " + err.Error()
+				} else if msg := c17CheckDoc(d, ms); msg != "" {
+					lib.formatted = "\x00the library's formatted JSON does not carry the match data: " + msg
+				}
 			}
 			lib.pr = fix(c18CapturePrint(ms))
 		}
